@@ -906,7 +906,8 @@ class Collocator:
             and flattened. If no common time period could be found, two None
             objects are returned.
         """
-        if max_interval is not None:
+        if max_interval is not None \
+                or start > datetime.min or end < datetime.max:
             timer = Timer().start()
             # We do not have to collocate everything, just the common time
             # period expanded by max_interval and limited by the global start
@@ -953,6 +954,18 @@ class Collocator:
     @staticmethod
     def _get_common_time_period(
             primary, secondary, max_interval, start, end):
+        if max_interval is None:
+            # There is no temporal criterion (spatial search only), i.e. only
+            # the global start and end parameter limit the data. We expand the
+            # common time window by the time span of all data so that it
+            # covers both datasets completely:
+            limits = [
+                pd.Timestamp(limit.item(0)).tz_localize(None)
+                for data in (primary, secondary)
+                for limit in (data.time.values.min(), data.time.values.max())
+            ]
+            max_interval = max(limits) - min(limits)
+
         max_interval = pd.Timedelta(max_interval)
 
         # We want to select a common time window from both datasets,
